@@ -4,6 +4,7 @@ import MindsVerif.Lemmas.WalkTrace
 import MindsVerif.Lemmas.WalkSchemaOK
 import MindsVerif.Lemmas.WalkNoNone
 import MindsVerif.Lemmas.WalkPerm
+import MindsVerif.Lemmas.WalkDepth
 import MindsVerif.Gen.Schema
 /-!
 # C13 — the AST walker visits every table, expression and subquery once, in textual order
@@ -40,6 +41,17 @@ their kind, the order in which `to_string()` prints them, and the branch of the 
   targets, visiting order).
 * `[review]` section: `walk_congr`, `C13_review_once_reordered`, `C13_review_replace_reordered` — general theorems for walkers
   that deviate only in the visiting order (any schema); on the probed schema they add nothing any more (`phi13_reordered`).
+* Depth and process history (round 6): every theorem above quantifies over **all** trees — there is no bound on the nesting
+  depth anywhere — and `walk` is a pure function of schema, visitor, tree and visitor state.  Made explicit as the
+  specification of two streams of the check (`tools/harness/walkhist.py`):
+  `C13_deep_ops / _calls / _subqueries / _joins / _casts / _case` (operator chains, nested calls, sub-queries, join chains, casts,
+  CASE nested `n` deep are `okTree` for every `n`, so clauses (a) and (b) hold on them, and the looking visitor is called
+  `k·n + b` times); `C13_any_depth`; `C13_cut_eq` / `C13_cut_nothing` / `C13_cut_witness` (a walker with a depth budget is the
+  walker exactly on the trees that fit the budget; below it nothing is called); `C13_history_free` (a call observes
+  `specSeen` of that call alone, whatever calls — completed or aborted by an exception at any node — were made before);
+  `C13_abort_prefix`, `C13_abort_expected` (the calls of an aborted walk are the textual preorder up to the raising node);
+  `C13_ctr_fresh`, `C13_history_witness` (a depth counter kept in process state that is not restored on an exception: right
+  in a fresh process on every tree that fits, wrong after enough aborted walks).
 Specification data not derived from the code: the slot kinds (which child slots are table / target / expression / query
 positions, which are names or containers) come from the hand-written `tools/harness/walkspec.py`.
 -/
@@ -429,5 +441,154 @@ example :
        .mk (cid "Join") (sid "Select" "from_table") 2 [leaf "Join" "left" 3, leaf "Join" "right" 4]]
     okTree σ q = true ∧ okTree σr q = true ∧ tagsOf q = [some 0, some 1, some 2, some 3, some 4]
       ∧ reqTags σ q = [0, 1, 2, 3, 4] := by decide +kernel
+
+/-! ### depth: the theorems hold at every nesting depth
+
+`C13_lifting`, `C13_once`, `C13_unchanged`, `C13_trace`, `C13_no_none_call` are stated for every tree: the model walker is
+defined by structural recursion and has no depth parameter.  The families below are `okTree` on the probed schema at every
+height, so the hypothesis of `C13_partial` is not a hidden depth bound.  The check walks parser trees nested 300 … 440 levels
+(the same shapes and random mixtures of them, in every clause) with the real code under the interpreter's ordinary recursion
+limit and compares with this model (`tools/harness/walkhist.py`, depth stream). -/
+
+/-- `((x op y) op y) … op y`, `f(f(… f(x)))`, `SELECT a FROM (SELECT a FROM (… t))`, `((t JOIN u ON c) JOIN u ON c) …`,
+`CAST(CAST(… x …))`, `CASE WHEN a THEN (CASE WHEN a THEN … ELSE c END) ELSE c END` — `n` levels each -/
+def opChain (n : Nat) : Node :=
+  tower (cid "BinaryOperation") (sid "BinaryOperation" "args") [] [leaf "BinaryOperation" "args" 1]
+    (leaf "BinaryOperation" "args" 2) n
+def fnNest (n : Nat) : Node :=
+  tower (cid "Function") (sid "Function" "args") [] [] (leaf "Function" "args" 2) n
+def subNest (n : Nat) : Node :=
+  tower (cid "Select") (sid "Select" "from_table") [leaf "Select" "targets" 1] [] (leaf "Select" "from_table" 2) n
+def joinChain (n : Nat) : Node :=
+  tower (cid "Join") (sid "Join" "left") [] [leaf "Join" "right" 1, leaf "Join" "condition" 3] (leaf "Join" "left" 2) n
+def castNest (n : Nat) : Node :=
+  tower (cid "TypeCast") (sid "TypeCast" "arg") [] [] (leaf "TypeCast" "arg" 2) n
+def caseNest (n : Nat) : Node :=
+  tower (cid "Case") (sid "Case" "rules") [leaf "Case" "rules" 1] [leaf "Case" "default" 3] (leaf "Case" "rules" 2) n
+
+/-- what a family has to satisfy at one level (decidable, kernel-evaluated on the probed schema) -/
+def levelOK (c s : Nat) (pre post : List Node) (base : Node) : Bool :=
+  (base.slot == s) && okTree σ base && nodeOK (σ.row c) (slotsOf pre ++ s :: slotsOf post)
+    && okKids σ (σ.row c) pre && okKids σ (σ.row c) post && ((σ.row c).kind s).required
+
+theorem okTree_of_levelOK (c s : Nat) (pre post : List Node) (base : Node) (h : levelOK c s pre post base = true) (n : Nat) :
+    okTree σ (tower c s pre post base n) = true := by
+  simp only [levelOK, Bool.and_eq_true, beq_iff_eq] at h
+  obtain ⟨⟨⟨⟨⟨h1, h2⟩, h3⟩, h4⟩, h5⟩, h6⟩ := h
+  exact okTree_tower σ c s pre post base h1 h2 h3 h4 h5 h6 n
+
+/-- the property at every depth of an operator chain: the hypothesis of `C13_partial` holds, the tree is at least `n` deep,
+and a looking visitor is called exactly `2·n + 1` times (every operator and every operand once) -/
+theorem C13_deep_ops (n : Nat) : okTree σ (opChain n) = true ∧ n < height (opChain n) ∧ C13_body σ (opChain n)
+    ∧ ∀ {S : Type} (cb : Cb S), (∀ st m a b pq, (cb st m a b pq).1 = none) → ∀ st,
+        (walk σ cb (opChain n) st).log.length = 2 * n + 1 := by
+  have hl : levelOK (cid "BinaryOperation") (sid "BinaryOperation" "args") [] [leaf "BinaryOperation" "args" 1]
+      (leaf "BinaryOperation" "args" 2) = true := by decide +kernel
+  have hok := okTree_of_levelOK _ _ _ _ _ hl n
+  refine ⟨hok, height_tower _ _ _ _ _ n, C13_lifting σ _ hok, ?_⟩
+  intro S cb hcb st
+  have hp := (C13_once σ (opChain n) hok cb hcb st).length_eq
+  rw [List.length_map, List.length_map] at hp
+  rw [hp]
+  have hk : (reqKids σ (σ.row (cid "BinaryOperation")) [leaf "BinaryOperation" "args" 1]).length = 1
+      ∧ (reqKids σ (σ.row (cid "BinaryOperation")) ([] : List Node)).length = 0
+      ∧ (reqTags σ (leaf "BinaryOperation" "args" 2)).length = 1
+      ∧ ((σ.row (cid "BinaryOperation")).kind (sid "BinaryOperation" "args")).required = true
+      ∧ (leaf "BinaryOperation" "args" 2).slot = sid "BinaryOperation" "args" := by decide +kernel
+  have := reqTags_tower_length σ (cid "BinaryOperation") (sid "BinaryOperation" "args") []
+    [leaf "BinaryOperation" "args" 1] (leaf "BinaryOperation" "args" 2) hk.2.2.2.2 hk.2.2.2.1 n
+  rw [hk.1, hk.2.1, hk.2.2.1] at this
+  simp only [opChain]
+  omega
+
+/-- nested function calls, sub-queries in FROM, join chains, casts and CASE expressions: `okTree` at every depth, hence (a)
+and (b) of the property -/
+theorem C13_deep_calls (n : Nat) : okTree σ (fnNest n) = true ∧ n < height (fnNest n) ∧ C13_body σ (fnNest n) := by
+  have hl : levelOK (cid "Function") (sid "Function" "args") [] [] (leaf "Function" "args" 2) = true := by decide +kernel
+  have hok := okTree_of_levelOK _ _ _ _ _ hl n
+  exact ⟨hok, height_tower _ _ _ _ _ n, C13_lifting σ _ hok⟩
+theorem C13_deep_subqueries (n : Nat) : okTree σ (subNest n) = true ∧ n < height (subNest n) ∧ C13_body σ (subNest n) := by
+  have hl : levelOK (cid "Select") (sid "Select" "from_table") [leaf "Select" "targets" 1] []
+      (leaf "Select" "from_table" 2) = true := by decide +kernel
+  have hok := okTree_of_levelOK _ _ _ _ _ hl n
+  exact ⟨hok, height_tower _ _ _ _ _ n, C13_lifting σ _ hok⟩
+theorem C13_deep_joins (n : Nat) : okTree σ (joinChain n) = true ∧ n < height (joinChain n) ∧ C13_body σ (joinChain n) := by
+  have hl : levelOK (cid "Join") (sid "Join" "left") [] [leaf "Join" "right" 1, leaf "Join" "condition" 3]
+      (leaf "Join" "left" 2) = true := by decide +kernel
+  have hok := okTree_of_levelOK _ _ _ _ _ hl n
+  exact ⟨hok, height_tower _ _ _ _ _ n, C13_lifting σ _ hok⟩
+theorem C13_deep_casts (n : Nat) : okTree σ (castNest n) = true ∧ n < height (castNest n) ∧ C13_body σ (castNest n) := by
+  have hl : levelOK (cid "TypeCast") (sid "TypeCast" "arg") [] [] (leaf "TypeCast" "arg" 2) = true := by decide +kernel
+  have hok := okTree_of_levelOK _ _ _ _ _ hl n
+  exact ⟨hok, height_tower _ _ _ _ _ n, C13_lifting σ _ hok⟩
+theorem C13_deep_case (n : Nat) : okTree σ (caseNest n) = true ∧ n < height (caseNest n) ∧ C13_body σ (caseNest n) := by
+  have hl : levelOK (cid "Case") (sid "Case" "rules") [leaf "Case" "rules" 1] [leaf "Case" "default" 3]
+      (leaf "Case" "rules" 2) = true := by decide +kernel
+  have hok := okTree_of_levelOK _ _ _ _ _ hl n
+  exact ⟨hok, height_tower _ _ _ _ _ n, C13_lifting σ _ hok⟩
+
+/-- the hypothesis of `C13_partial` is no depth bound: it is satisfiable at every height -/
+theorem C13_any_depth (n : Nat) : ∃ t, n < height t ∧ okTree σ t = true ∧ C13_body σ t :=
+  ⟨opChain n, (C13_deep_ops n).2.1, (C13_deep_ops n).1, (C13_deep_ops n).2.2.1⟩
+
+/-- a walker that enters at most `f` levels is the walker on every tree of height ≤ `f` (any schema, any visitor) … -/
+theorem C13_cut_eq {S : Type} (σ : Schema) (cb : Cb S) (t : Node) (f : Nat) (h : height t ≤ f) (st : S) :
+    walkCut σ cb f t st = walk σ cb t st := walkCut_eq σ cb t f h st
+/-- … without budget it calls nothing … -/
+theorem C13_cut_nothing {S : Type} (σ : Schema) (cb : Cb S) (t : Node) (st : S) : (walkCut σ cb 0 t st).log = [] :=
+  walkCut_zero σ cb t st
+/-- … and on a tree that does not fit it is another function: of the 7 calls on a chain of height 4 a budget of 2 makes 3 -/
+theorem C13_cut_witness :
+    ((walk σ cbLog (opChain 3) ()).log.map Visit.tag).length = 7
+    ∧ (walkCut σ cbLog 2 (opChain 3) ()).log.map Visit.tag = [some 0, some 0, some 1]
+    ∧ (walkCut σ cbLog 4 (opChain 3) ()).log.map Visit.tag = (walk σ cbLog (opChain 3) ()).log.map Visit.tag := by
+  decide +kernel
+
+/-! ### process history: a call observes nothing of earlier calls
+
+`Walk.Proc H` is a walker with hidden process state; `specSeen σ j` is what the specification says about the call `j` alone
+(a looking visitor: the calls of `walk`; a visitor raising at `x`: the calls up to `x`, and the exception comes out).  The
+history stream of the check makes hundreds of aborted walks (raised at random nodes of ordinary and of deep trees, from nested
+walks, by the planner's own visitors) between ordinary walks in one process and requires of every ordinary walk what
+`C13_history_free` says: the result of the same walk without any history (and of the Lean walker). -/
+
+/-- for the model: whatever was called before — and however it ended — a call gives `specSeen` of that call -/
+theorem C13_history_free (σ : Schema) (pre : List Job) (j : Job) :
+    seenAfter (modelProc σ) () pre j = specSeen σ j ∧ HistoryFree (modelProc σ) :=
+  ⟨modelProc_seen σ () pre j, modelProc_historyFree σ⟩
+
+/-- the calls of a walk aborted at `x` are a prefix of the calls of the walk … -/
+theorem C13_abort_prefix (σ : Schema) (x : Nat) (t : Node) :
+    abortLog x (walk σ cbLog t ()).log <+: (walk σ cbLog t ()).log := abortLog_prefix x _
+/-- … on an `okTree`: the textual preorder of the required nodes up to the raising node -/
+theorem C13_abort_expected (σ : Schema) (x : Nat) (t : Node) (h : okTree σ t = true) :
+    (specSeen σ (.abortAt x t)).calls <+: expected σ t false false := by
+  have g := ((C13_lifting σ t h).1 Unit cbLog (fun _ _ _ _ _ => rfl) ()).1
+  simp only [specSeen]
+  rw [← g]
+  exact (abortLog_prefix x _).map _
+
+/-- a walker that counts its nesting depth in process state (limit `lim`, no restore when an exception leaves the walk):
+in a fresh process it is right on every tree that fits the limit, for looking and for raising visitors … -/
+theorem C13_ctr_fresh (σ : Schema) (lim : Nat) (t : Node) (h : height t ≤ lim) (x : Nat) :
+    (ctrProc σ lim 0 (.look t)).1 = specSeen σ (.look t)
+    ∧ (ctrProc σ lim 0 (.abortAt x t)).1 = specSeen σ (.abortAt x t) :=
+  ⟨ctrProc_fresh σ lim t h, ctrProc_fresh_abort σ lim x t h⟩
+
+/-- … and wrong after enough aborted walks: with limit 4, two walks of `(x op y)` aborted at the operand `x` (two active
+calls each) leave no budget: after the first the ordinary walk of the same statement is still right, after the second it
+calls nothing -/
+theorem C13_history_witness :
+    seenAfter (ctrProc σ 4) 0 [] (.look (opChain 1)) = specSeen σ (.look (opChain 1))
+    ∧ seenAfter (ctrProc σ 4) 0 [.abortAt 2 (opChain 1)] (.look (opChain 1)) = specSeen σ (.look (opChain 1))
+    ∧ seenAfter (ctrProc σ 4) 0 [.abortAt 2 (opChain 1), .abortAt 2 (opChain 1)] (.look (opChain 1)) = ⟨[], false⟩
+    ∧ (specSeen σ (.look (opChain 1))).calls.length = 3
+    ∧ ¬ HistoryFree (ctrProc σ 4) := by
+  have h1 : seenAfter (ctrProc σ 4) 0 [] (.look (opChain 1)) = specSeen σ (.look (opChain 1)) := by decide +kernel
+  have h2 : seenAfter (ctrProc σ 4) 0 [.abortAt 2 (opChain 1), .abortAt 2 (opChain 1)] (.look (opChain 1))
+      ≠ specSeen σ (.look (opChain 1)) := by decide +kernel
+  refine ⟨h1, by decide +kernel, by decide +kernel, by decide +kernel, ?_⟩
+  intro hf
+  exact h2 ((hf 0 [.abortAt 2 (opChain 1), .abortAt 2 (opChain 1)] (.look (opChain 1))).trans h1)
 
 end MindsVerif.Props.C13
